@@ -4,6 +4,7 @@ import (
 	"errors"
 	"fmt"
 	"net"
+	"syscall"
 	"time"
 
 	"github.com/Jigsaw-Code/outline-ss-server/service"
@@ -57,6 +58,15 @@ func runC12Stream(rc *RunCtx) {
 	hs := make([]*handle, nH)
 	delivered := map[int][]int{} // conn id -> handles
 	rc.Phase = "acquire"
+	if G.Draw(4) == 0 {
+		// a failed acquisition first (the address is briefly unavailable): it must leave nothing behind
+		w.ListenFail = func(network, addr string) error { return syscall.EADDRINUSE }
+		if _, err := m.ListenStream(c12Addr); err == nil {
+			rc.Failf("acquire-succeeded-despite-bind-failure", "ListenStream succeeded although the bind failed")
+		}
+		w.ListenFail = nil
+		simrt.Probe("failed_acquire_before_use")
+	}
 	for i := range hs {
 		ln, err := m.ListenStream(c12Addr)
 		if err != nil {
@@ -141,6 +151,7 @@ func runC12Stream(rc *RunCtx) {
 			stamp++
 			lateAt = stamp
 			hs = append(hs, &handle{ln: ln})
+			simrt.RacePublish() // the handle is handed to the main task below
 			rc.Probe("reacquire_during_closes")
 			acceptor(len(hs) - 1)
 		})
@@ -225,6 +236,7 @@ func runC12Stream(rc *RunCtx) {
 	}
 	// ---- phase 2: close everything that is still open ----
 	rc.Phase = "final-close"
+	simrt.RaceObserve()
 	for i, h := range hs {
 		if !h.closeCalled {
 			closer(i, func() {})
@@ -306,6 +318,14 @@ func runC12Packet(rc *RunCtx) {
 	hs := make([]*handle, nH)
 	delivered := map[string][]int{}
 	rc.Phase = "acquire"
+	if G.Draw(4) == 0 {
+		w.ListenFail = func(network, addr string) error { return syscall.EADDRINUSE }
+		if _, err := m.ListenPacket(c12Addr); err == nil {
+			rc.Failf("acquire-succeeded-despite-bind-failure", "ListenPacket succeeded although the bind failed")
+		}
+		w.ListenFail = nil
+		simrt.Probe("failed_acquire_before_use")
+	}
 	for i := range hs {
 		pc, err := m.ListenPacket(c12Addr)
 		if err != nil {
@@ -386,6 +406,7 @@ func runC12Packet(rc *RunCtx) {
 			stamp++
 			lateAt = stamp
 			hs = append(hs, &handle{pc: pc})
+			simrt.RacePublish()
 			rc.Probe("reacquire_during_closes")
 			reader(len(hs) - 1)
 		})
@@ -457,6 +478,7 @@ func runC12Packet(rc *RunCtx) {
 		}
 	}
 	rc.Phase = "final-close"
+	simrt.RaceObserve()
 	for i, h := range hs {
 		if !h.closeCalled {
 			closer(i, func() {})
